@@ -62,7 +62,8 @@ ISAS = [
     isa.IsaCfg("4004/4040", "Isa4004_Gen", [("4004", "4004"), ("4040", "4040")]),
     isa.IsaCfg("8080/8085", "Isa8080_Gen", [("8080", "8080"), ("8085", "8085")]),
     isa.IsaCfg("6502/65C02", "Isa6502_Gen", [("6502", "6502"), ("65SC02", "65SC02"), ("65C02", "65C02"),
-                                             ("W65C02S", "W65C02S")], quick=["6502", "W65C02S"]),
+                                             ("W65C02S", "W65C02S")], quick=["6502", "W65C02S"],
+               seq_only=[("MELPS740", "MELPS740")]),
     isa.IsaCfg("PIC16C8x", "IsaPic16_Gen", [("16C84", "16C84")], unit_bytes=2),
     isa.IsaCfg("AVR", "IsaAvr_Gen", [("AT90S8515", "AT90S8515"), ("ATMEGA128", "ATMEGA128")], unit_bytes=2,
                quick=["ATMEGA128"]),
@@ -231,6 +232,52 @@ def replay_cpu(rep, bld, cfg, cpu, aslcpu, cases):
     return len(acc), len(oth), len(singles)
 
 
+PAIRS_PER_SOURCE = 400
+
+
+def replay_seq(rep, bld, cfg, cpu, aslcpu, pairs):
+    """Adjacency dimension: the two statements of every ordered mnemonic pair stand on consecutive lines (an `org`
+    before the pair).  Judged in that context from the emit/diag events of the batch run; a deviating pair is re-run
+    as a two-statement source and judged there (never statement by statement: the context is the point)."""
+    if not bld.hooks:
+        return 0
+    groups = [pairs[i:i + PAIRS_PER_SOURCE] for i in range(0, len(pairs), PAIRS_PER_SOURCE)]
+    jobs, metas = [], []
+    for g in groups:
+        flat = [c for p in g for c in (p["a"], p["b"])]
+        src, where = isa.batch_source(cfg, aslcpu, flat)
+        jobs.append({"sources": {"a.asm": src}, "opts": ["-q"], "events": "emit,diag", "timeout": 120})
+        metas.append((g, flat, where))
+    results = _many(bld, jobs)
+    suspects = []
+    for (g, flat, where), res in zip(metas, results):
+        rep.traces(1)
+        if res.timeout or res.sig is not None or res.trace is None:
+            suspects += g
+            continue
+        em, errs = isa.emitted_by_line(res.trace, cfg)
+        for k, p in enumerate(g):
+            fine = all(_fine(flat[2 * k + i], em.get(where[2 * k + i], []), errs.get(where[2 * k + i], []), res.rc)
+                       for i in (0, 1))
+            if not fine:
+                suspects.append(p)
+    jobs = []
+    for p in suspects:
+        src, where = isa.batch_source(cfg, aslcpu, [p["a"], p["b"]])
+        jobs.append(({"sources": {"a.asm": src}, "opts": ["-q"], "events": "emit,diag"}, where))
+    results = _many(bld, [j for (j, w) in jobs])
+    for p, (j, where), res in zip(suspects, jobs, results):
+        for i, c in enumerate((p["a"], p["b"])):
+            e1, r1 = _observe(bld, cfg, res, where[i])
+            c = dict(c, id=c["id"] + (" after " + p["a"]["mn"] if i else " (first of pair)"))
+            judge(rep, cfg, cpu, c, j["sources"]["a.asm"], where[i], res.rc, e1, r1, sig=res.sig, timeout=res.timeout,
+                  out=res.out + res.err)
+    for p in pairs:
+        rep.evaluated(2)
+        rep.distinct((cfg.name, cpu, "pair", p["a"]["mn"], p["b"]["mn"]), True)
+    return len(suspects)
+
+
 CPU2ISA = {"4004": ("4004", 1), "4040": ("4004", 1), "8080": ("8080", 1), "8085": ("8080", 1), "6502": ("6502", 1),
            "65SC02": ("6502", 1), "65C02": ("6502", 1), "W65C02S": ("6502", 1), "16C84": ("PIC16", 2),
            "AT90S8515": ("AVR", 2), "ATMEGA128": ("AVR", 2), "Z80": ("Z80", 1), "MSP430": ("MSP430", 2), "6800": ("6800", 1)}
@@ -303,6 +350,16 @@ def main(tier):
                                 "expected": c["exp"], "units": c["units"]})
         if cfg.name not in covered:
             covered.append(cfg.name)
+    # adjacency dimension: every ordered pair of mnemonics on consecutive lines ----------------------------------
+    seqtodo = [(cfg, cpu, aslcpu) for cfg in ISAS for (cpu, aslcpu) in list(cfg.cpus_for(tier)) + list(cfg.seq_only)]
+    with Phase("TLC: %d adjacency generator runs" % len(seqtodo)):
+        seqs = pmap(lambda t: isa.gen_seq(t[0], t[1], salts[0]), seqtodo, workers=min(4, NCPU))
+    for (cfg, cpu, aslcpu), (r, pairs) in zip(seqtodo, seqs):
+        name = "%s(%s) adjacency" % (cfg.module, cpu)
+        with Phase("replay " + name):
+            rep.model(name, r)
+            ns = replay_seq(rep, bld, cfg, cpu, aslcpu, pairs)
+            rep.part(name, ordered_mnemonic_pairs=len(pairs), rerun_as_pair=ns)
     # (V) golden corpus statements explained by the tables ---------------------------------------------------
     if bld.hooks:
         from vlib import tracecheck
